@@ -131,6 +131,10 @@ def check(ctx, replay=None):
     work += [{"n": n, "flags": fl, "seed": ctx.seed + n, "spawns": 2, "preload": True, "preload_flags": pf} for n in (1, 4, 16) for fl in (1, 3) for pf in (0, 2)]
     # the environment reports an old kernel release (UNAME26 personality): the kernel's seccomp(2) is the same, so is what is demanded
     work += [{"n": n, "flags": fl, "seed": ctx.seed * 7 + n, "spawns": 2, "uname26": True} for n in (2, 8, 32) for fl in (1, 3, 0, 2)]
+    # every combination of privilege and requested bit: an unprivileged load without the bit is refused by the kernel (nothing to validate);
+    # whatever the library does about that, a nil result has to mean what the statement says
+    work += [{"n": n, "flags": fl, "seed": ctx.seed * 11 + n, "spawns": 2, "unprivileged": up, "no_nnp": nn}
+             for n in (2, 16) for fl in (1, 3, 0) for up, nn in ((True, True), (True, False), (False, True))]
     # an earlier load of ANOTHER policy, with or without thread-sync: whether the recorded load reaches the other threads depends on its own flags only
     work += [{"n": n, "flags": fl, "seed": ctx.seed + n, "spawns": 2, "preload": True, "preload_other": True, "preload_flags": pf}
              for n in (2, 8) for fl in (0, 2, 1, 3) for pf in (1, 3, 0)]
@@ -150,6 +154,12 @@ def check(ctx, replay=None):
             # C10 speaks about loads that return nil; a load that fails is judged by C09 / C11 (not by this check)
             ctx.skip("load with flags %#x failed (%s): nothing to validate for C10" % (cfg["flags"], (obs.get("error") or "")[:80]))
             nfailed += 1
+            continue
+        if cfg.get("unprivileged") and cfg.get("no_nnp"):
+            for b in direct_judge(obs, cfg["flags"])[:2]:
+                ctx.violation("an unprivileged load without a requested no_new_privs bit returned nil: %s" % b, {"config": cfg, "recording": obs,
+                              "admissible": "an error (the kernel refuses), or nil with the statement's coverage", "how": "./check C10 --replay <this file>"})
+            ctx.cov["evaluations"] += sum(len(t["probes"]) for t in obs["threads"])
             continue
         if cfg.get("preload"):
             # the loader was filtered (by the same policy) before the recorded load: outside LoaderTrace's fresh-process segments; judged by the statement
@@ -214,8 +224,9 @@ def check(ctx, replay=None):
 
 
 def run_cfg(binary, cfg):
+    kw = dict(user=65534, group=65534, extra_groups=[]) if cfg.get("unprivileged") else {}
     try:
-        p = subprocess.run([binary], input=json.dumps(cfg), capture_output=True, text=True, timeout=60, env={"PATH": "/usr/bin:/bin"})
+        p = subprocess.run([binary], input=json.dumps(cfg), capture_output=True, text=True, timeout=60, env={"PATH": "/usr/bin:/bin"}, cwd="/", **kw)
     except subprocess.TimeoutExpired:
         return None, "timeout"
     if p.returncode != 0:
